@@ -467,8 +467,11 @@ def run_subclasses(R, mp, rng, n):
             kw["unconnected_send"] = rng.random() < 0.5
             mk = lambda: GenericUnconnectedRequestPacket(**kw)  # noqa: E731
             kind = "rr"
-        probe = mk()
-        body = probe.build_message()[2 if connected else 0:]
+        try:
+            body = mk().build_message()[2 if connected else 0:]
+        except Exception:  # noqa: BLE001  (only a broken implementation gets here; the pure stage reports it)
+            R.count("subclass", "probe-raised")
+            continue
         c = {"kind": kind, "seq": seq if connected else None, "pver": None, "flags": None, "added": [body],
              "cid": rng.randbytes(4), "sess": rng.randrange(0, 2 ** 32), "ctx": CTX, "opt": 0, "times": rng.choice([1, 1, 2])}
         p = mk()
@@ -585,9 +588,10 @@ class Scenario:
 
         def cmds(frames, code, sessions0, conns0):
             n = len(frames)
-            if code == 0:
-                return [{0x6F}] * (n - 1) + [{0x70}] if n else []
-            return [{0x6F}] * n
+            if not n:
+                return []
+            # Forward Open attempts, then the request itself; a call that raised may have stopped anywhere
+            return [{0x6F}] * (n - 1) + [{0x70} if code == 0 else {0x6F, 0x70}]
         self._call("connected", lambda: self.drv.generic_message(connected=True, **kw), op, cmds)
 
     def close(self):
@@ -599,8 +603,9 @@ class Scenario:
             return ["close", "0", "0"]
 
         def cmds(frames, code, sessions0, conns0):
-            want = ([{0x6F}] if conns0 else []) + ([{0x66}] if sessions0 else [])
-            return want if len(want) == len(frames) else [set()] * len(frames)     # a frame too many / too few: flagged
+            # a Forward Close (SendRRData) and/or the UnRegisterSession, in that order (how many is C10's business)
+            n = len(frames)
+            return [{0x6F}, {0x66}] if n == 2 else [{0x6F, 0x66}] * n
         self._call("close", self.drv.close, op, cmds)
 
     # -- verdicts
@@ -713,6 +718,9 @@ def run_histories(R, mp, tp, rng, n, long=False):
             elif r < 0.84:
                 sc.module_info(rng.randrange(0, 17))
             elif r < 0.94:
+                if rng.random() < 0.3:               # the target refuses the Forward Close (0x4E): close() must still forget the connection
+                    tp.inject(0, 0x4E, rng.choice([0x01, 0x08, 0x13]))
+                    R.count("hist_op", "close-with-forward-close-refused")
                 sc.close()
                 if rng.random() < 0.8:
                     sc.open()
@@ -731,7 +739,7 @@ def run_library_scenarios(R, tp, rng, n):
     import target as T
     from pycomm3 import CIPDriver, LogixDriver
     for i in range(n):
-        pname, pol = POLICIES[i % 3]
+        pname, pol = POLICIES[(i // 3) % len(POLICIES)]
         handle, cid = rng.randrange(1, 2 ** 32), rng.randrange(0, 2 ** 32)
         tp.reset()
         micro = rng.random() < 0.25
